@@ -20,6 +20,8 @@ import (
 	. "verifharness/hlib"
 
 	erpc "github.com/henrylee2cn/erpc/v6"
+	"github.com/henrylee2cn/erpc/v6/proto/jsonproto"
+	"github.com/henrylee2cn/erpc/v6/proto/pbproto"
 	"github.com/henrylee2cn/erpc/v6/socket"
 	"github.com/henrylee2cn/erpc/v6/xfer"
 )
@@ -449,13 +451,31 @@ type observedSet struct {
 	disconnected bool
 }
 
+// protocols the scripted peer and the served session speak: the raw protocol in the quick
+// tier; raw, jsonproto and pbproto in turn in the thorough tier
+var (
+	protoRotation = []erpc.ProtoFunc{nil}
+	protoNames    = []string{"raw"}
+	sessionCount  int
+	lastProto     string
+)
+
 func newSession(p erpc.Peer) (erpc.Session, *RawPeer) {
 	cc, sc := TCPPair()
-	sess, st := p.ServeConn(sc)
+	k := sessionCount % len(protoRotation)
+	sessionCount++
+	lastProto = protoNames[k]
+	var pfs []erpc.ProtoFunc
+	var spf []socket.ProtoFunc
+	if pf := protoRotation[k]; pf != nil {
+		pfs = append(pfs, pf)
+		spf = append(spf, socket.ProtoFunc(pf))
+	}
+	sess, st := p.ServeConn(sc, pfs...)
 	if !st.OK() {
 		Must(errors.New("ServeConn: " + st.String()))
 	}
-	return sess, NewRawPeer(cc)
+	return sess, NewRawPeer(cc, spf...)
 }
 
 func (c *caseCfg) peer() erpc.Peer {
@@ -467,6 +487,12 @@ func (c *caseCfg) peer() erpc.Peer {
 
 // runNormal: one frame, then a ping; env normal / ctxexp / prh / hdrerr / hdrpanic.
 func runNormal(c *caseCfg) observedSet {
+	if c.rawBytes != nil {
+		// hand-made raw-protocol bytes
+		saved := protoRotation
+		protoRotation = []erpc.ProtoFunc{nil}
+		defer func() { protoRotation = saved }()
+	}
 	if v, ok := c.verdicts["prh"]; ok {
 		vv := v
 		preReadHeaderVerdict.Store(&vv)
@@ -933,6 +959,10 @@ func malformed(cfg *RunCfg) *caseCfg {
 func main() {
 	cfg := ParseFlags()
 	setup()
+	if cfg.Tier == "thorough" {
+		protoRotation = []erpc.ProtoFunc{nil, jsonproto.NewJSONProtoFunc(), pbproto.NewPbProtoFunc()}
+		protoNames = []string{"raw", "json", "pb"}
+	}
 	st := NewStats("C03", cfg)
 	st.Rule = "cases = frame classes sent by a scripted raw peer to a served session (raw protocol): systematic product {256 type bytes} + {CALL,PUSH} x route{known,unknown-handler,none} x body{empty,valid,undecodable-codec-set,codec-0,unknown-codec} x handler{return,status,ok-status,panic,unmarshalable} x {no verdict | one stage x {veto,ok-status,405,panic}}, sampled to n; plus random multi-verdict frames, empty service method, malformed headers, pre-read-header veto, expired context, half-closed peer, closing session, exhausted goroutine pool, unpackable error frame, pipelined batches; distinct by full case description; non-trivial = CALL or PUSH reaching route lookup"
 	w := NewCaseWriter(cfg)
@@ -940,6 +970,7 @@ func main() {
 	idx := 0
 	record := func(c *caseCfg, o observedSet, class string) {
 		st.Count("class:" + class)
+		st.Count("proto:" + lastProto)
 		st.Count("type:" + typeClass(c.ty))
 		if c.ty == erpc.TypeCall || c.ty == erpc.TypePush {
 			st.Count("route:" + c.route)
